@@ -124,7 +124,60 @@ def net_row(nm, net):
         _opt_bytes(d["_bip84_prv_prefix"]), _opt_bytes(d["_bip84_pub_prefix"])))
 
 
+def check_cache_swallows_everything():
+    """parseable_str.cache must be `slot = None; try: slot = f(self); except Exception: pass` — the model's ps_cache
+    (any exception class of a decoder -> None) is exactly that; anything narrower is refused here (fail-closed)"""
+    import ast, os
+    from gen_tables import REPO
+    tree = ast.parse(open(os.path.join(REPO, "pycoin/networks/parseable_str.py")).read())
+    fn = None
+    for node in ast.walk(tree):
+        if isinstance(node, ast.ClassDef) and node.name == "parseable_str":
+            for st in node.body:
+                if isinstance(st, ast.FunctionDef) and st.name == "cache":
+                    fn = st
+    if fn is None:
+        raise GenError("parseable_str.cache not found")
+    tries = [n for n in ast.walk(fn) if isinstance(n, ast.Try)]
+    if len(tries) != 1:
+        raise GenError("parseable_str.cache: expected exactly one try statement")
+    t = tries[0]
+    if len(t.handlers) != 1 or t.orelse or t.finalbody:
+        raise GenError("parseable_str.cache: unexpected try shape")
+    h = t.handlers[0]
+    if not (h.type is None or (isinstance(h.type, ast.Name) and h.type.id in ("Exception", "BaseException"))):
+        raise GenError("parseable_str.cache no longer swallows every exception (handler: %s)" % ast.dump(h.type))
+    if not all(isinstance(b, ast.Pass) for b in h.body):
+        raise GenError("parseable_str.cache: the exception handler does more than pass")
+    # behavioural probe on the live class: a decoder raising an arbitrary exception gives None, twice
+    from pycoin.networks.parseable_str import parseable_str
+
+    class _Odd(Exception):
+        pass
+
+    def boom(_):
+        raise _Odd()
+    ps = parseable_str("probe")
+    try:
+        if ps.cache("c18_probe", boom) is not None or ps.cache("c18_probe", boom) is not None:
+            raise GenError("parseable_str.cache: a raising decoder did not give None")
+    except _Odd:
+        raise GenError("parseable_str.cache lets a decoder's exception escape")
+    for k in ("IndexError", "KeyError", "TypeError", "ImportError"):
+        ps = parseable_str("probe")
+        exc = __builtins__[k] if isinstance(__builtins__, dict) else getattr(__builtins__, k)
+
+        def boom2(_, exc=exc):
+            raise exc("x")
+        try:
+            if ps.cache("p", boom2) is not None:
+                raise GenError("parseable_str.cache: a raising decoder did not give None")
+        except exc:
+            raise GenError("parseable_str.cache lets %s escape" % k)
+
+
 def gen_parse_prefixes() -> str:
+    check_cache_swallows_everything()
     nets = load_networks()
     curve = None
     rows = []
